@@ -453,6 +453,10 @@ def run(rep, ctx):
         r09_2(rep, M, "R09.2")
     with rep.guard("R09.3"):
         r09_3(rep, M, "R09.3")
+    rep.rule("R09.4", "the displacement-tensor wrapper hands cutoff, positions and cell to the minimum-image search unreduced")
+    with rep.guard("R09.4"):
+        from . import c10
+        c10.r10_1(rep, M, "R09.4")
     rep.floor("R09.1", 2)
     rep.floor("R09.2", 4)
     rep.floor("R09.3", 9)
